@@ -289,7 +289,10 @@ impl<T: UciTx, H: Heuristic, M: MoveOrder> Search<T, H, M> {
 
         self.state.metrics.increment_duration(&self.state.elapsed());
 
-        (best_move.and_then(|vm| vm.mv).map(move_into_uci_move), self.state.ponder_move().map(move_into_uci_move))
+        let best_move = best_move.and_then(|vm| vm.mv);
+        let ponder_move = best_move.and_then(|_| self.state.ponder_move());
+
+        (best_move.map(move_into_uci_move), ponder_move.map(move_into_uci_move))
     }
 
     fn evaluate(&self, color: ColorBits, zobrist_pawn_hash: ZobristHash, legal_moves_remaining: bool) -> i32 {
